@@ -115,8 +115,10 @@ func c01Case(r *lib.Run, cfg *lib.Cfg, g *lib.Gen, t ygot.GoStruct, mode jsonMod
 		sd := lib.DiffObs(o, o2, lib.DiffOpts{Shape: true})
 		if len(sd) > 0 {
 			feat = featOf(sd[0])
-			if strings.HasSuffix(sd[0].Feature, ":empty") {
-				feat = "empty-leaf-list"
+			for _, x := range sd {
+				if strings.HasSuffix(x.Feature, ":empty") {
+					feat = "empty-leaf-list"
+				}
 			}
 		}
 		r.Violate("rerender-differs", feat, fmt.Sprintf("re-rendered JSON differs (%s)", feat), w(map[string]interface{}{"j1": lib.Clip(j1, 3000), "j2": lib.Clip(j2, 3000)}))
